@@ -373,7 +373,25 @@ func (e *env) ancestors(x, a *refmodel.Node) {
 	default: // unrelated: a same-chain error, never 200
 		if code == 200 {
 			e.violate("ancestors|"+rel+"|200", fmt.Sprintf("GET %s -> 200 %s although neither header descends from the other", q, clip(string(b))), "GET "+q, nil)
+			return
 		}
+		// "... and a same-chain error otherwise": the structured error names that condition, whichever way the walk
+		// down the parent links found it out (another header at the ancestor's height, or no header there at all)
+		var ej struct {
+			Code string `json:"code"`
+		}
+		_ = json.Unmarshal(b, &ej)
+		if rel == "unrelated-ancestor-higher" {
+			// the argument order alone rules the question out ("ancestor" above the header): a more specific client error
+			// is as good an answer
+			e.r.Count("ancestors_unrelated_and_higher_answered_"+ej.Code, 1)
+			return
+		}
+		if ej.Code != "ErrHeadersNotPartOfTheSameChain" {
+			e.violate("ancestors|"+rel+"|error-is-not-the-same-chain-error|"+x.State+"|"+a.State, fmt.Sprintf("GET %s -> %d %s although both headers are stored and neither descends from the other (expected the same-chain error)", q, code, clip(string(b))), "GET "+q, nil)
+			return
+		}
+		e.r.Count("ancestors_same_chain_errors", 1)
 	}
 }
 
@@ -560,7 +578,7 @@ func (e *env) queryState(rng *rand.Rand, exhaustive bool) {
 }
 
 func body(r *ev.Run) {
-	r.Rule("states = end (after a restart in a quarter of them), one mid-history point and half of the reorganisation points of seeded random histories (forks of any depth, several stale branches, orphan chains, late parents, reorganisations, zero-work headers). Plus long stores (prefix of 30/800/1500 headers, then a reorganisation over 2050/700/520 heights) queried by sample and for their farthest pairs (tip / stale tip against genesis and the first blocks). Small states (<=12 headers): ALL queries — every hash for header/state, every ordered pair for ancestors, every multiset of size <=3 for common ancestor, every (height,count) window over -1..max+2 x 0..5, windows with a negative start or length, windows whose start or length is 2^31-1 / 2^31 / 2^32 / 2^32+1 / 2^40; large states (up to 120 headers): seeded samples. Oracle = reference model with weakest readings (by-height: subset of stored-in-window and superset of longest-in-window; ancestors: contains every strictly-between header, nothing off the path, no duplicates, endpoints optional, order free; unrelated headers => never 200; common ancestor asserted for lists with minimum height >= 1). Headers-table digest compared around reads. evaluations = states queried; distinct = distinct (endpoint, relation/state class) cells; non-trivial = all.")
+	r.Rule("states = end (after a restart in a quarter of them), one mid-history point and half of the reorganisation points of seeded random histories (forks of any depth, several stale branches, orphan chains, late parents, reorganisations, zero-work headers). Plus long stores (prefix of 30/800/1500 headers, then a reorganisation over 2050/700/520 heights) queried by sample and for their farthest pairs (tip / stale tip against genesis and the first blocks). Small states (<=12 headers): ALL queries — every hash for header/state, every ordered pair for ancestors, every multiset of size <=3 for common ancestor, every (height,count) window over -1..max+2 x 0..5, windows with a negative start or length, windows whose start or length is 2^31-1 / 2^31 / 2^32 / 2^32+1 / 2^40; large states (up to 120 headers): seeded samples. Oracle = reference model with weakest readings (by-height: subset of stored-in-window and superset of longest-in-window; ancestors: contains every strictly-between header, nothing off the path, no duplicates, endpoints optional, order free; unrelated headers => never 200, and the same-chain error whenever the would-be ancestor is not above the header; common ancestor asserted for lists with minimum height >= 1). Headers-table digest compared around reads. evaluations = states queried; distinct = distinct (endpoint, relation/state class) cells; non-trivial = all.")
 	r.Assume("reference model transcribes the statement", "queries whose hash-linked ancestry crosses a parent stored after its child are skipped (stored heights unrelated; statement silent)", "5xx on degenerate arguments are C16's subject, not asserted here")
 	r.Require("ancestors_descendant", 200)
 	r.Require("ancestors_unrelated-equal-height", 20)
